@@ -26,7 +26,7 @@ Proof. exact two_way_exactly_one. Qed.
    and - the theorems above hold for every [hmeta] - never displaces the error text *)
 Theorem C07_response_metadata_is_the_handlers : forall find codec_ok decodable handler hmeta q r,
   q_hb q = false -> q_oneway q = false -> fst (process find codec_ok decodable handler hmeta q) = [r] ->
-  r_meta r = if handler_ran find codec_ok decodable q then hmeta (q_path q) (q_meth q) (q_args q) else [].
+  r_meta r = if handler_ran find codec_ok decodable handler q then hmeta (q_path q) (q_meth q) (q_args q) else [].
 Proof. exact response_metadata_is_the_handlers. Qed.
 
 Theorem C07_client_sees_the_text : forall id s text pl dec codec x,
